@@ -253,6 +253,14 @@ let str_case a =
     match died with
     | Some s -> res_name s.t_result
     | None ->
+        (* the rvalue / out-parameter argument of a failing operation is printed by the harness only if it came into
+           existence: when the fault hits the allocation of that argument itself (fault number 0, argument long) there
+           is nothing to print *)
+        let args = List.mapi (fun i ar ->
+          match parse_fail a, List.nth_opt steps i, List.nth_opt ops i with
+          | Some (0, fs), Some stp, Some (TThrowing (t0 :: _, _))
+            when fs = i && stp.t_result = Throw BadAlloc && List.length t0 >= l -> ""
+          | _ -> ar) args in
         let body = String.concat "|" (List.map (fun (stp, ar) -> pr_t ar stp) (zip steps args)) in
         (match t_leaked_after_scope lnat pnat stf with
          | Ok n -> "OK " ^ body ^ "|leak=" ^ string_of_nat n
